@@ -91,7 +91,10 @@ def _to_cardinal(solver, grid, dF):
 
 def search(rep: C.Report, tier: str, broken):
     r = C.rng("C12search")
-    kinds = {"T": dict(dT=0.04), "v": dict(dv=0.05), "field": dict(dphi=0.8, phi0=0.1), "all": dict(dT=0.03, dv=0.04, dphi=0.6, phi0=0.1)}
+    # "weak": a background that is almost, but not exactly, homogeneous (relative variations 1e-10): the source is tiny in absolute terms, the
+    # deviation must still solve the linear system (and is NOT zero)
+    kinds = {"T": dict(dT=0.04), "v": dict(dv=0.05), "field": dict(dphi=0.8, phi0=0.1), "all": dict(dT=0.03, dv=0.04, dphi=0.6, phi0=0.1),
+             "weak": dict(dT=3e-11, dv=4e-11, dphi=6e-11, phi0=0.1)}
     sizes = [(6, 3), (8, 5)] if tier == "quick" else [(6, 3), (8, 5), (12, 5), (10, 7)]
     for (M, N), npart in itertools.product(sizes, (1, 2)):
         ref = {}
